@@ -58,9 +58,15 @@ Assignments ==
   ELSE {}
 Distinct8(t) == Cardinality({t[i] : i \in Idents}) = 8
 
-Init == /\ IF Universe \in {"pairs", "prefix"} THEN assign \in {t \in Assignments : Distinct8(t)}
+\* the documentation's own example spells the root identifier like the (default) fake root: the two rules then match the
+\* same text and the one listed first - ROOT - wins; only the lexer model is consulted for it (MC_Lexer), the property itself
+\* speaks of distinct spellings
+Colliding == {[DefaultTok EXCEPT !.root = <<94>>], [DefaultTok EXCEPT !.self = <<35>>]}
+Init == /\ IF Universe = "collide" THEN assign \in Colliding ELSE
+           IF Universe \in {"pairs", "prefix"} THEN assign \in {t \in Assignments : Distinct8(t)}
            ELSE \E n \in 1..200 : assign = [i \in Idents |-> RandomElement(Pool)] /\ Distinct8(assign)
-        /\ prog \in Programs
+        /\ prog \in (IF Universe = "collide" THEN {pr \in Programs : LET t == RenderCompound(pr.first, pr.rest, StdStyle) IN \A j \in 1..Len(t) : t[j] \notin {94, 35}}
+                       ELSE Programs)       \* (with two identifiers spelled alike, only programs that use neither of them through the other's role)
         /\ done = FALSE
 Next == ~done /\ done' = TRUE /\ UNCHANGED <<assign, prog>>
 Spec == Init /\ [][Next]_vars
